@@ -1,6 +1,462 @@
-//! Transaction generator for send_transaction / estimate_cycles (C18).
+//! Transaction generator and pool model for send_transaction / estimate_cycles (C18).
+//!
+//! Every submission is built from the ground truth so that its verdict is known by
+//! construction: a valid transaction spends always-success cells whose creating transaction
+//! the client has stored (or that are outputs of a transaction in the pool model), depends on
+//! the always-success code cell if the client knows it, and conserves capacity. A mutation
+//! breaks exactly one of the rules `verify_tx` checks.
 
+use ckb_types::{
+    bytes::Bytes,
+    core::{Capacity, TransactionBuilder, TransactionView},
+    packed::{self, CellDep, CellInput, CellOutput, OutPoint},
+    prelude::*,
+};
+use serde_json::{json, Value};
+
+use crate::chain::always_success_script;
+use crate::entropy::Rng;
 use crate::plan::TxSpec;
 use crate::sim::Sim;
 
-pub fn submit(_sim: &mut Sim, _spec: &TxSpec, _send: bool) {}
+pub const POOL_LIMIT: usize = 64;
+
+#[derive(Default)]
+pub struct C18State {
+    /// FIFO model of the pending pool: (hash, transaction, cycles reported at admission)
+    pub pool: Vec<(packed::Byte32, TransactionView, Option<u64>)>,
+    /// every hash ever admitted / ever rejected
+    pub admitted: std::collections::HashSet<packed::Byte32>,
+    pub rejected: std::collections::HashSet<packed::Byte32>,
+    /// (peer identity, hash) announcements seen
+    pub announced: std::collections::HashMap<(u64, packed::Byte32), u32>,
+    /// cycles per script group observed in this run
+    pub unit_cycles: Option<u64>,
+    /// out points already spent by pool members (the generator avoids them for valid txs)
+    pub used: std::collections::HashSet<OutPoint>,
+}
+
+struct Built {
+    tx: TransactionView,
+    valid: bool,
+    why: String,
+    groups: u64,
+}
+
+fn is_always_success(s: &packed::Script) -> bool {
+    s.code_hash() == always_success_script(&[]).code_hash()
+        && s.hash_type() == always_success_script(&[]).hash_type()
+}
+
+fn bogus_out_point(rng: &mut Rng) -> OutPoint {
+    let mut h = [0u8; 32];
+    rng.fill(&mut h);
+    OutPoint::new(h.pack(), rng.below(3) as u32)
+}
+
+fn build(sim: &Sim, st: &C18State, spec: &TxSpec) -> Option<Built> {
+    let c = sim.client.as_ref()?;
+    let mut rng = Rng::new(spec.seed);
+    if spec.mutation == 20 {
+        // the user submits a transaction of the pool a second time
+        if st.pool.is_empty() {
+            return None;
+        }
+        let (_, tx, _) = &st.pool[rng.usize_below(st.pool.len())];
+        return Some(Built { tx: tx.clone(), valid: true, why: "resubmission of a pool member".into(), groups: 0 });
+    }
+    let world = &sim.world;
+    let dep_known = c.storage.get_transaction_with_header(&world.always_success_dep.out_point().tx_hash()).is_some();
+
+    // candidate inputs the client knows
+    let mut cands: Vec<(OutPoint, CellOutput)> = Vec::new();
+    for source in [spec.source, 1 - spec.source.min(1)] {
+        if !cands.is_empty() {
+            break;
+        }
+        if source == 1 {
+            for (_, tx, _) in st.pool.iter() {
+                for (i, o) in tx.outputs().into_iter().enumerate() {
+                    let op = OutPoint::new(tx.hash(), i as u32);
+                    if !st.used.contains(&op) {
+                        cands.push((op, o));
+                    }
+                }
+            }
+        } else {
+            for lc in world.branches[0].live.iter() {
+                if st.used.contains(&lc.out_point) {
+                    continue;
+                }
+                if lc.tx_index == 0 && lc.number > 0 {
+                    continue; // cellbase outputs: maturity is not modelled
+                }
+                if c.storage.get_transaction_with_header(&lc.out_point.tx_hash()).is_some() {
+                    cands.push((lc.out_point.clone(), lc.output.clone()));
+                }
+            }
+        }
+    }
+    if cands.is_empty() {
+        return None;
+    }
+    let n_in = (rng.range(1, 2) as usize).min(cands.len());
+    let mut inputs: Vec<(OutPoint, CellOutput)> = Vec::new();
+    for _ in 0..n_in {
+        let i = rng.usize_below(cands.len());
+        inputs.push(cands.remove(i));
+    }
+    let in_cap: u64 = inputs
+        .iter()
+        .map(|(_, o)| Unpack::<Capacity>::unpack(&o.capacity()).as_u64())
+        .sum();
+    let mut valid = true;
+    let mut why = String::from("valid");
+    if !dep_known {
+        valid = false;
+        why = "the always-success code cell is not known to the client".into();
+    }
+    for (_, o) in inputs.iter() {
+        if !is_always_success(&o.lock()) {
+            valid = false;
+            why = "an input is locked by a script whose code does not exist".into();
+        }
+        if let Some(t) = o.type_().to_opt() {
+            if !is_always_success(&t) {
+                valid = false;
+                why = "an input has a type script whose code does not exist".into();
+            }
+        }
+    }
+    let fee = 1_000 + rng.below(1_000);
+    let min_cell = 200_0000_0000u64; // 200 CKB: far above the occupied capacity of any generated cell
+    let n_out = if in_cap < fee + 2 * min_cell { 1 } else { rng.range(1, 2) };
+    if in_cap < fee + min_cell {
+        return None;
+    }
+    let each = (in_cap - fee) / n_out;
+    let mut outputs = Vec::new();
+    let mut datas: Vec<Bytes> = Vec::new();
+    for k in 0..n_out {
+        let lock = always_success_script(&[0xc1, k as u8, rng.below(4) as u8]);
+        outputs.push(
+            CellOutput::new_builder()
+                .capacity(Capacity::shannons(each).pack())
+                .lock(lock)
+                .build(),
+        );
+        let dlen = if rng.chance(1, 3) { rng.range(1, 8) } else { 0 };
+        let mut d = vec![0u8; dlen as usize];
+        rng.fill(&mut d);
+        datas.push(Bytes::from(d));
+    }
+    let mut cell_deps: Vec<CellDep> = vec![world.always_success_dep.clone()];
+    let mut cell_inputs: Vec<CellInput> = inputs.iter().map(|(op, _)| CellInput::new(op.clone(), 0)).collect();
+    let mut witnesses: Vec<packed::Bytes> = vec![Bytes::from(vec![rng.below(256) as u8]).pack()];
+    let mut version: u32 = 0;
+    let tip = c.storage.get_last_state().1.into_view().number();
+
+    match spec.mutation {
+        0 => {}
+        1 => {
+            // outputs exceed inputs
+            let o = outputs[0].clone();
+            let cap = Unpack::<Capacity>::unpack(&o.capacity()).as_u64();
+            outputs[0] = o.as_builder().capacity(Capacity::shannons(cap + fee + 1 + rng.below(1_000_000)).pack()).build();
+            valid = false;
+            why = "outputs exceed inputs".into();
+        }
+        2 => {
+            let dup = cell_inputs[0].clone();
+            cell_inputs.push(dup);
+            valid = false;
+            why = "duplicated input".into();
+        }
+        3 => {
+            let i = rng.usize_below(cell_inputs.len());
+            cell_inputs[i] = CellInput::new(bogus_out_point(&mut rng), 0);
+            valid = false;
+            why = "unknown input".into();
+        }
+        4 => {
+            cell_deps[0] = CellDep::new_builder().out_point(bogus_out_point(&mut rng)).build();
+            valid = false;
+            why = "unknown cell dep".into();
+        }
+        5 => {
+            cell_deps.clear();
+            valid = false;
+            why = "no cell dep: script code cannot be found".into();
+        }
+        6 => {
+            // absolute block-number since far above the tip
+            let since = tip + 1_000 + rng.below(1_000);
+            cell_inputs[0] = CellInput::new(inputs[0].0.clone(), since);
+            valid = false;
+            why = "immature absolute since".into();
+        }
+        7 => {
+            // output below its occupied capacity
+            let o = outputs[0].clone();
+            outputs[0] = o.as_builder().capacity(Capacity::shannons(1 + rng.below(1_000)).pack()).build();
+            valid = false;
+            why = "output below its occupied capacity".into();
+        }
+        8 => {
+            // witness garbage: the always-success script ignores witnesses
+            let n = rng.range(0, 200) as usize;
+            let mut w = vec![0u8; n];
+            rng.fill(&mut w);
+            witnesses = vec![Bytes::from(w).pack(), Bytes::new().pack()];
+        }
+        9 => {
+            cell_inputs.clear();
+            valid = false;
+            why = "no inputs".into();
+        }
+        10 => {
+            datas.pop();
+            valid = false;
+            why = "outputs / outputs_data length mismatch".into();
+        }
+        11 => {
+            version = 1 + rng.below(3) as u32;
+            valid = false;
+            why = "unsupported transaction version".into();
+        }
+        12 => {
+            // an index beyond the outputs of a known transaction
+            let op = OutPoint::new(inputs[0].0.tx_hash(), 1_000 + rng.below(1000) as u32);
+            cell_inputs[0] = CellInput::new(op, 0);
+            valid = false;
+            why = "input index beyond the outputs of a known transaction".into();
+        }
+        13 => {
+            // satisfied absolute since (block number <= tip): still valid
+            let since = rng.range(0, tip);
+            cell_inputs[0] = CellInput::new(inputs[0].0.clone(), since);
+        }
+        _ => {
+            // duplicated cell dep
+            cell_deps.push(world.always_success_dep.clone());
+            valid = false;
+            why = "duplicated cell dep".into();
+        }
+    }
+    let tx = TransactionBuilder::default()
+        .version(version.pack())
+        .cell_deps(cell_deps)
+        .inputs(cell_inputs)
+        .outputs(outputs)
+        .outputs_data(datas.iter().map(|d| d.pack()))
+        .witnesses(witnesses)
+        .build();
+    // script groups: distinct lock scripts of the inputs (outputs carry no type script)
+    let mut locks: Vec<packed::Script> = Vec::new();
+    let mut types: Vec<packed::Script> = Vec::new();
+    for (_, o) in inputs.iter() {
+        if !locks.contains(&o.lock()) {
+            locks.push(o.lock());
+        }
+        if let Some(t) = o.type_().to_opt() {
+            if !types.contains(&t) {
+                types.push(t);
+            }
+        }
+    }
+    Some(Built {
+        tx,
+        valid,
+        why,
+        groups: (locks.len() + types.len()) as u64,
+    })
+}
+
+fn tx_json(tx: &TransactionView) -> Value {
+    let j: ckb_jsonrpc_types::Transaction = tx.data().into();
+    serde_json::to_value(&j).expect("transaction to json")
+}
+
+fn parse_u64(v: &Value) -> Option<u64> {
+    v.as_str().and_then(|s| u64::from_str_radix(s.trim_start_matches("0x"), 16).ok())
+}
+
+pub fn submit(sim: &mut Sim, spec: &TxSpec, send: bool) {
+    let mut st = std::mem::take(&mut sim.oracle.c18);
+    submit_inner(sim, &mut st, spec, send);
+    sim.oracle.c18 = st;
+}
+
+fn submit_inner(sim: &mut Sim, st: &mut C18State, spec: &TxSpec, send: bool) {
+    let built = match build(sim, st, spec) {
+        Some(b) => b,
+        None => {
+            sim.stat("probe.c18.nothing_to_spend");
+            return;
+        }
+    };
+    let hash = built.tx.hash();
+    let method = if send { "send_transaction" } else { "estimate_cycles" };
+    let r = match crate::user::rpc(sim, method, json!([tx_json(&built.tx)])) {
+        Some(r) => r,
+        None => return,
+    };
+    sim.log(format!("{} {:#x} ({}) -> {:?}", method, hash, built.why, r));
+    match (&r, built.valid) {
+        (Ok(_), false) => {
+            sim.violate(
+                "C18",
+                "unverifiable_transaction_accepted",
+                format!("{} accepted {:#x}: {}", method, hash, built.why),
+            );
+        }
+        (Err(e), true) => {
+            sim.violate(
+                "C18",
+                "verifiable_transaction_rejected",
+                format!("{} rejected {:#x} (valid by construction): {}", method, hash, e),
+            );
+        }
+        _ => {}
+    }
+    match &r {
+        Ok(v) => {
+            sim.stat("probe.c18.accepted");
+            let mut cycles = None;
+            if send {
+                if v.as_str().map(|s| s.to_string()) != Some(format!("{:#x}", hash)) {
+                    sim.violate("C18", "wrong_hash_returned", format!("{} for {:#x}", v, hash));
+                }
+            } else {
+                cycles = v.get("cycles").and_then(parse_u64);
+                if cycles.is_none() {
+                    sim.violate("C18", "no_cycles_reported", format!("{}", v));
+                }
+            }
+            if send {
+                // model: insert (re-insert keeps position in a LinkedHashMap::insert? it moves to the back)
+                st.pool.retain(|(h, _, _)| h != &hash);
+                st.pool.push((hash.clone(), built.tx.clone(), None));
+                while st.pool.len() > POOL_LIMIT {
+                    st.pool.remove(0);
+                }
+                st.admitted.insert(hash.clone());
+                for i in built.tx.input_pts_iter() {
+                    st.used.insert(i);
+                }
+                // pool members are reported as pending with their cycles
+                if let Some(Ok(g)) = crate::user::rpc(sim, "get_transaction", json!([crate::user::h256_json(&hash)])) {
+                    let status = g.pointer("/tx_status/status").and_then(|s| s.as_str()).unwrap_or("");
+                    if status != "pending" {
+                        sim.violate("C18", "pool_member_not_reported_pending", format!("{:#x}: {}", hash, g));
+                    }
+                    cycles = g.get("cycles").and_then(parse_u64);
+                    if cycles.is_none() {
+                        sim.violate("C18", "no_cycles_reported", format!("{}", g));
+                    }
+                }
+            }
+            if let Some(cy) = cycles {
+                if built.groups > 0 {
+                    if cy == 0 || cy % built.groups != 0 {
+                        sim.violate("C18", "cycles_do_not_match_the_scripts_run", format!("{:#x}: {} cycles for {} script groups", hash, cy, built.groups));
+                    } else {
+                        let unit = cy / built.groups;
+                        match st.unit_cycles {
+                            None => st.unit_cycles = Some(unit),
+                            Some(u) if u != unit => {
+                                sim.violate("C18", "cycles_do_not_match_the_scripts_run", format!("{:#x}: {} cycles for {} groups, earlier {} per group", hash, cy, built.groups, u));
+                            }
+                            _ => {}
+                        }
+                    }
+                }
+            }
+        }
+        Err(_) => {
+            sim.stat("probe.c18.rejected");
+            if !st.admitted.contains(&hash) {
+                st.rejected.insert(hash.clone());
+                // a rejected transaction leaves no trace
+                if let Some(Ok(g)) = crate::user::rpc(sim, "get_transaction", json!([crate::user::h256_json(&hash)])) {
+                    let status = g.pointer("/tx_status/status").and_then(|s| s.as_str()).unwrap_or("");
+                    if status != "unknown" {
+                        sim.violate("C18", "rejected_transaction_stored", format!("{:#x}: {}", hash, g));
+                    }
+                }
+            }
+        }
+    }
+    check_pool(sim, st);
+}
+
+/// The real pool equals the FIFO model (membership and eviction order).
+pub fn check_pool(sim: &mut Sim, st: &mut C18State) {
+    let c = match sim.client.as_ref() {
+        Some(c) => c,
+        None => return,
+    };
+    let mut findings: Vec<(&str, String)> = Vec::new();
+    {
+        let pool = c.pending_txs.read().unwrap_or_else(|e| e.into_inner());
+        for (h, _, _) in st.pool.iter() {
+            if pool.get(h).is_none() {
+                findings.push(("pool_member_lost", format!("{:#x} is one of the newest {} admitted transactions and is not in the pool", h, POOL_LIMIT)));
+            }
+        }
+        let members: std::collections::HashSet<&packed::Byte32> = st.pool.iter().map(|(h, _, _)| h).collect();
+        for h in st.admitted.iter() {
+            if !members.contains(h) && pool.get(h).is_some() {
+                findings.push(("pool_exceeds_its_limit", format!("{:#x} should have been evicted (limit {})", h, POOL_LIMIT)));
+            }
+        }
+        for h in st.rejected.iter() {
+            if pool.get(h).is_some() {
+                findings.push(("rejected_transaction_stored", format!("{:#x} is in the pool", h)));
+            }
+        }
+    }
+    if st.pool.len() == POOL_LIMIT {
+        sim.stat("probe.c18.pool_full");
+    }
+    for (clause, detail) in findings {
+        sim.violate("C18", clause, detail);
+    }
+}
+
+/// A relay announcement arrived at peer `p`.
+pub fn on_announce(sim: &mut Sim, p: usize, hashes: &[packed::Byte32]) {
+    let mut st = std::mem::take(&mut sim.oracle.c18);
+    let ident = sim.plan.peers[p].identity;
+    for h in hashes {
+        sim.stat("probe.c18.announced");
+        let n = st.announced.entry((ident, h.clone())).or_insert(0);
+        *n += 1;
+        if *n > 1 {
+            sim.stat("probe.c18.reannounce_seen");
+            sim.violate("C18", "announced_twice_to_one_peer", format!("{:#x} announced {} times to peer id {}", h, *n, ident));
+        }
+        if !st.admitted.contains(h) {
+            sim.violate("C18", "unadmitted_transaction_relayed", format!("{:#x} announced to peer id {}", h, ident));
+        }
+    }
+    sim.oracle.c18 = st;
+}
+
+/// The client answered GetRelayTransactions.
+pub fn on_relay_transactions(sim: &mut Sim, p: usize, txs: Vec<(packed::Transaction, u64)>) {
+    let st = std::mem::take(&mut sim.oracle.c18);
+    let ident = sim.plan.peers[p].identity;
+    for (tx, cycles) in txs {
+        let h = tx.calc_tx_hash();
+        sim.stat("probe.c18.relayed_body");
+        if !st.admitted.contains(&h) {
+            sim.violate("C18", "unadmitted_transaction_relayed", format!("{:#x} sent to peer id {}", h, ident));
+        }
+        if cycles == 0 {
+            sim.violate("C18", "cycles_do_not_match_the_scripts_run", format!("{:#x} relayed with 0 cycles", h));
+        }
+    }
+    sim.oracle.c18 = st;
+}
+
